@@ -1,6 +1,7 @@
-(** * Proofs/Btor2Fix.v — the repaired reader ([parse_*_v Fix], patches/000N-fix-btor2-*.diff):
-    it never panics on supported operators, in either build profile, and every system it
-    accepts satisfies the full [sys_ok] and is closed. *)
+(** * Proofs/Btor2Fix.v — the repaired readers ([parse_*_v v] with [is_fix v], i.e. [Fix] =
+    patches/0001..0007-fix-btor2-*.diff and [Fix2] = [Fix] + patches/0009):
+    they never panic on supported operators, in either build profile, and every system they
+    accept satisfies the full [sys_ok] and is closed. *)
 From Coq Require Import List Lia Bool String Ascii NArith FMapPositive.
 From Patronus Require Import Expr ExprLemmas SysClosed Btor2Parse Btor2ExprFacts Btor2ParseProofs Btor2Refine Btor2NoCrash.
 Import ListNotations.
